@@ -52,7 +52,7 @@ ASSUMPTIONS = [
 ]
 MANIFEST = {
     'level': 'exploration',
-    'technique': 'runtime monitor: real healthcheck main()/loop() driven by scripted check results, virtual clock, disable-file toggles and KeyboardInterrupt/SIGTERM; every written line parsed by the real daemon-side API path; independent hysteresis envelope and per-state expected values',
+    'technique': 'runtime monitor: real healthcheck main()/loop() driven by scripted check results, virtual clock, disable-file toggles and KeyboardInterrupt/SIGTERM; every written line parsed by the real daemon-side API path; independent hysteresis envelope and per-state expected values; the real healthcheck program as helper process of the real exabgp process with a scripted check command, hysteresis judged on what a scripted peer receives',
     'text': 'Seeded exploration (quick) plus full enumeration of all boolean result sequences up to length 10 for every '
     '(rise,fall) in {1,2,3}^2 x withdraw-on-down x debounce (thorough) of the real healthcheck loop; each written line is '
     'accepted by the real API dispatcher and route parser and compared with values computed from the options. Held means no '
